@@ -1,5 +1,7 @@
 package blob
 
+import "sync"
+
 // C19 harnesses: blob.Bytes against a []byte model. Arguments are fully symbolic int64;
 // the blob's length is symbolic in [0,N], its bytes are symbolic.
 
@@ -309,4 +311,31 @@ func VerifC19Fallback() {
 	verifReach("fallback-in-range")
 	verifAssert(err == nil, "fallback: in-range arguments must succeed")
 	c19Same(r, buf[s:e], "fallback result")
+}
+
+// VerifC19CrossSet: two independent blobs copied into each other by two goroutines at the same time
+// (Set(x, y) || Set(y, x)), interleaved at every acquisition of a blob mutex: both calls return (no lock is
+// held while another blob's lock is taken), and each destination ends up with the other's old or new bytes.
+func VerifC19CrossSet() {
+	x := NewBytes([]byte{1, 2})
+	y := NewBytes([]byte{3, 4})
+	var wg sync.WaitGroup
+	wg.Add(2)
+	go func() {
+		defer wg.Done()
+		verifGo(1)
+		defer verifGoDone()
+		_, _ = Set(x, y, 0)
+	}()
+	go func() {
+		defer wg.Done()
+		verifGo(2)
+		defer verifGoDone()
+		_, _ = Set(y, x, 0)
+	}()
+	wg.Wait()
+	verifReach("both-returned")
+	xb, yb := x.Bytes(), y.Bytes()
+	verifAssert(len(xb) == 2 && len(yb) == 2, "a crosswise Set changed a length")
+	verifAssert((xb[0] == 1 || xb[0] == 3) && (yb[0] == 1 || yb[0] == 3), "a crosswise Set produced a byte neither blob held")
 }
